@@ -18,7 +18,7 @@
      [code]                          the code that exists (copy.copy kept; repaired mapping data_vector);
      [no_copy], [unguarded]          the two mutants *)
 From Coq Require Import List Arith Bool ZArith Reals.
-From PAV Require Import Base.Res Base.Check Base.NumOps Model.C03 Model.C04 Model.C04Lib Proofs.C04 Model.C15 Proofs.C15 Model.C15k Proofs.C15k Proofs.C15f.
+From PAV Require Import Base.Res Base.Check Base.NumOps Model.C03 Model.C04 Model.C04Lib Proofs.C04 Model.C15 Proofs.C15 Model.C15k Proofs.C15k Proofs.C15s Proofs.C15f.
 Import ListNotations.
 
 (* 1. Transparency: for every subset of slots filled with fresh values, every sequence of attribute reads returns
@@ -227,6 +227,54 @@ Theorem C15_factory_choice_value_free_C04_kernels :
     = fst (run_inversion (KR c m Kp encf dec slv ldc ldr) (with_wt false inp) code empty_store qs).
 Proof. exact c04_factory_choice_value_free. Qed.
 
+(* 11. Preloads.set_*(fit_0, fit_1) -- the production path that fills the slots.  [make_fit K inp own cmdm]: the inversion of a fit
+       as the factory builds it (own = its own Preloads object); [freads]: attributes read from it; [run_setters K code Cm ss P f0 f1]:
+       the methods ss (any of set_w_tilde_imaging, set_operated_mapping_matrix_with_preloads, set_linear_func_inversion_dicts,
+       set_curvature_matrix, set_regularization_matrix_and_term, in any order, repetitions allowed) called on the Preloads object P
+       with the two fits; Cm = the three "max |a - b| < 1e-8" comparisons (arbitrary).  For EVERY second fit f1 (any inputs, any
+       state): what the methods store satisfies the invariant [consistent] (= the premise of theorems 1-5 in semantic form), fit_0's
+       inversion keeps returning the specification values whatever is read from it afterwards (the repair 1fc8a9b: a copy, not an
+       alias, of its cached curvature matrix is stored), and every later history of inversions that the factory builds in fit_0's
+       class on fit_0's inputs returns the specification values. *)
+Theorem C15_set_preloads_store_fresh_values :
+  forall (T : Type) (K : kernels T) (Cm : cmpk T) (inp0 : input T) (own0 : pstore T) (cmdm0 : res (mat T)) (f0 f1 : fit T)
+         (reads0 : list qty) (ss : list setter) (P : pstore T),
+    make_fit K inp0 own0 cmdm0 = Ok f0 -> consistent K inp0 (f_mode f0) own0 -> set_laws K inp0 (f_mode f0) ->
+    consistent K inp0 (f_mode f0) P ->
+    let f0a := snd (freads K code f0 reads0) in
+    let r := run_setters K code Cm ss P f0a f1 in
+    let P' := snd (fst (fst r)) in
+    consistent K inp0 (f_mode f0) P' /\
+    (forall reads1, fst (freads K code (snd (fst r)) reads1) = map (pure K inp0 (f_mode f0)) reads1) /\
+    (forall h, make_inversion K inp0 P' = Ok (f_mode f0) ->
+               fst (run_history K inp0 code P' h) = map (fun qs => Ok (map (pure K inp0 (f_mode f0)) qs)) h).
+Proof. exact set_preloads_fresh. Qed.
+Theorem C15_set_preloads_store_fresh_values_C04_kernels :
+  forall (c : @convolver ROps) (m : mask) (Kp : @kernel ROps) encf dec slv ldc ldr (Cm : cmpk R)
+         (inp0 : input R) (np : nat) own0 cmdm0 f0 f1 reads0 ss P,
+    wf_input c encf np inp0 ->
+    make_fit (KR c m Kp encf dec slv ldc ldr) inp0 own0 cmdm0 = Ok f0 ->
+    consistent (KR c m Kp encf dec slv ldc ldr) inp0 (f_mode f0) own0 ->
+    consistent (KR c m Kp encf dec slv ldc ldr) inp0 (f_mode f0) P ->
+    let K := KR c m Kp encf dec slv ldc ldr in
+    let r := run_setters K code Cm ss P (snd (freads K code f0 reads0)) f1 in
+    let P' := snd (fst (fst r)) in
+    consistent K inp0 (f_mode f0) P' /\
+    (forall reads1, fst (freads K code (snd (fst r)) reads1) = map (pure K inp0 (f_mode f0)) reads1) /\
+    (forall h, make_inversion K inp0 P' = Ok (f_mode f0) ->
+               fst (run_history K inp0 code P' h) = map (fun qs => Ok (map (pure K inp0 (f_mode f0)) qs)) h).
+Proof. exact c04_set_preloads_fresh. Qed.
+(* non-vacuity of 11: one regularized mapper, mapping class; all five methods fill curvature_matrix, operated_mapping_matrix,
+   regularization_matrix, the log-determinant and use_w_tilde, and the factory still builds fit_0's class *)
+Example C15_hyps_set_preloads :
+  make_fit zk inpB empty_store (Ok [[1]]%Z) = Ok fitB /\ consistent zk inpB (f_mode fitB) empty_store /\
+  set_laws zk inpB (f_mode fitB) /\
+  (let P' := snd (fst (fst (run_setters zk code zcmp [SetWt; SetOmm; SetLf; SetCurv; SetReg] empty_store
+                                         (snd (freads zk code fitB [QCurv])) fitB))) in
+   s_curv P' = Some [[1]]%Z /\ s_omm P' = Some [[1]; [1]]%Z /\ s_reg P' = Some [[1]]%Z /\ s_ldr P' = Some 9%Z /\
+   s_use_wt P' = Some true /\ s_dvm P' = None /\ make_inversion zk inpB P' = Ok None).
+Proof. exact set_toy_hyps. Qed.
+
 (* non-vacuity of the hypotheses of 9 and 10: (a) every mapping matrix has an encoding that stands for it (the dense one), so
    [encf := dense_enc] meets the encoding clauses of [wf_input] for every mapper; (b) a 3x4 mask with two unmasked pixels, a signed
    3x3 PSF, noise (1, 2), a function list with an operated override followed by a regularized mapper meets every hypothesis *)
@@ -265,3 +313,5 @@ Print Assumptions C15_data_linear_func_matrix_identity.
 Print Assumptions C15_dvm_shortcut_mapping.
 Print Assumptions C15_formalism_choice_value_free_C04_kernels.
 Print Assumptions C15_factory_choice_value_free_C04_kernels.
+Print Assumptions C15_set_preloads_store_fresh_values.
+Print Assumptions C15_set_preloads_store_fresh_values_C04_kernels.
